@@ -1410,8 +1410,7 @@ def cargo(args, timeout=1500):
     lock = os.path.join(K2DIR, 'Cargo.lock')
     if not os.path.exists(lock):
         shutil.copy('/repo/Cargo.lock', lock)
-    p = subprocess.run(['cargo'] + args + ['--offline', '--message-format=short'], cwd=K2DIR, env=env,
-                       stdin=subprocess.DEVNULL, capture_output=True, text=True, timeout=timeout)
+    p = vlib.run_cargo(['cargo'] + args + ['--offline', '--message-format=short'], cwd=K2DIR, env=env, timeout=timeout)
     return p.returncode, p.stdout, p.stderr
 
 def build_and_run(mods, max_rounds=4):
